@@ -28,13 +28,13 @@ ENV = dict(os.environ, GOFLAGS="-mod=mod", GOPROXY="off", GOSUMDB="off", GOTOOLC
 
 # property -> list of (scenario, quick runs, thorough runs)
 PLAN = {
-    "C10": [("c10-v4", 5000, 400000), ("c10-v6", 5000, 400000)],
-    "C11": [("c11-v4", 3000, 250000), ("c11-v6", 3000, 250000)],
-    "C12": [("c12-v4", 4000, 150000), ("c12-v6", 4000, 150000)],
-    "C13": [("c13-v4", 6000, 300000), ("c13-v6", 6000, 300000)],
-    "C14": [("c14-v4", 4500, 200000), ("c14-v6", 4500, 200000)],
-    "C18": [("c18", 12000, 1000000)],
-    "C08": [("c08", 4000, 300000)],
+    "C10": [("c10-v4", 8000, 400000), ("c10-v6", 8000, 400000)],
+    "C11": [("c11-v4", 4500, 250000), ("c11-v6", 4500, 250000)],
+    "C12": [("c12-v4", 8000, 150000), ("c12-v6", 8000, 150000)],
+    "C13": [("c13-v4", 12000, 300000), ("c13-v6", 12000, 300000)],
+    "C14": [("c14-v4", 8000, 200000), ("c14-v6", 8000, 200000)],
+    "C18": [("c18", 24000, 1000000)],
+    "C08": [("c08", 8000, 300000)],
 }
 
 REAL_STUB = {
